@@ -16,6 +16,10 @@ A second kind of specification (`kind="straightline"`) executes a whole function
 statement (assignments and augmented assignments to names and `self` attributes, typed `Nat` / `Rat`, `np.sqrt`
 as an uninterpreted function `sq`), and emits the final value of the listed outputs -- used for the update rules
 of `AdamOpt.step` and `GradientAscentOpt.step` (arrays are read coordinate-wise).
+A third kind (`CHAIN_SPECS`) reads a function whose body is a chain of `if <test>: return <expr>` statements closed by a
+`raise` or a `return`: the tests are opaque booleans named by the specification, the returned expressions are
+translated (natural-number `%`, `==`, `True` / `False`), and the result is the nested `if` as an `Option` (`none` = the
+`raise`) -- used for `_check_restart` of both evolution-strategy emitters.
 Anything else makes the translation of that formula fail; the generated definition is then the constant `0`
 with the reason in a comment, which no equality theorem survives.
 """
@@ -107,6 +111,20 @@ SL_SPECS = [
          vars=[("sq", "Rat → Rat"), ("lr", "Rat"), ("b1", "Rat"), ("b2", "Rat"), ("eps", "Rat"), ("l2", "Rat"),
                ("theta", "Rat"), ("m", "Rat"), ("v", "Rat"), ("t", "Nat"), ("g", "Rat")],
          outputs={"Theta": "self._theta", "M": "self._m", "V": "self._v", "T": "self._t"}),
+]
+
+CHAIN_SPECS = [
+    dict(name=nm, file=f, func=fn,
+         inputs={"isinstance(self._restart_rule, numbers.Integral)": ("isInt", "Bool"),
+                 "self._restart_rule == 'no_improvement'": ("isNoImp", "Bool"),
+                 "self._restart_rule == 'basic'": ("isBasic", "Bool"),
+                 "self._itrs": ("itrs", "Nat"), "self._restart_rule": ("rule", "Nat"), "num_parents": ("np", "Nat")},
+         vars=[("isInt", "Bool"), ("isNoImp", "Bool"), ("isBasic", "Bool"), ("itrs", "Nat"), ("rule", "Nat"), ("np", "Nat")],
+         result="Bool")
+    for nm, f, fn in (("esCheckRestart", "ribs/emitters/_evolution_strategy_emitter.py",
+                       "EvolutionStrategyEmitter._check_restart"),
+                      ("gaeCheckRestart", "ribs/emitters/_gradient_arborescence_emitter.py",
+                       "GradientArborescenceEmitter._check_restart"))
 ]
 
 
@@ -239,9 +257,17 @@ def sl_expr(node, sym, assigns=None, depth=0):
         raise Untranslatable(f"name {node.id} ({len(vals)} definitions)")
     if isinstance(node, ast.Constant):
         v = node.value
-        if isinstance(v, int) and not isinstance(v, bool) and v >= 0:
+        if isinstance(v, bool):
+            return ("true" if v else "false"), "Bool"
+        if isinstance(v, int) and v >= 0:
             return str(v), "Lit"
         return exact_literal(v), "Rat"
+    if isinstance(node, ast.Compare) and len(node.ops) == 1 and isinstance(node.ops[0], (ast.Eq, ast.NotEq)):
+        a, at = sl_expr(node.left, sym, assigns, depth + 1)
+        b, bt = sl_expr(node.comparators[0], sym, assigns, depth + 1)
+        if {at, bt} <= {"Nat", "Lit"} and "Nat" in (at, bt):
+            return f"({a} {'==' if isinstance(node.ops[0], ast.Eq) else '!='} {b})", "Bool"
+        raise Untranslatable(f"comparison {text[:60]} is not over naturals")
     if isinstance(node, ast.UnaryOp) and isinstance(node.op, ast.USub):
         e, t = sl_expr(node.operand, sym, assigns, depth + 1)
         return f"(-{rat(e, t)})", "Rat"
@@ -253,12 +279,12 @@ def sl_expr(node, sym, assigns=None, depth=0):
                 raise Untranslatable(f"exponent {ast.unparse(node.right)} is not a natural number")
             return f"({rat(b, bt)} ^ {e})", "Rat"
         ops = {ast.Add: "+", ast.Sub: "-", ast.Mult: "*", ast.Div: "/"}
-        if isinstance(node.op, ast.FloorDiv):
+        if isinstance(node.op, (ast.FloorDiv, ast.Mod)):
             a, at = sl_expr(node.left, sym, assigns, depth + 1)
             b, bt = sl_expr(node.right, sym, assigns, depth + 1)
-            if {at, bt} <= {"Nat", "Lit"}:
-                return f"({a} / {b})", "Nat"                      # `//` of naturals = Nat division
-            raise Untranslatable("`//` that is not over naturals")
+            if {at, bt} <= {"Nat", "Lit"}:                        # `//`, `%` of naturals = Nat division, remainder
+                return f"({a} {'/' if isinstance(node.op, ast.FloorDiv) else '%'} {b})", "Nat"
+            raise Untranslatable("`//` or `%` that is not over naturals")
         if type(node.op) not in ops:
             raise Untranslatable(f"operator {type(node.op).__name__}")
         a, at = sl_expr(node.left, sym, assigns, depth + 1)
@@ -270,6 +296,11 @@ def sl_expr(node, sym, assigns=None, depth=0):
         fn = call_name(node.func)
         if fn in IDENTITY_CALLS and node.args:
             return sl_expr(node.args[0], sym, assigns, depth + 1)
+        if fn == "int" and len(node.args) == 1 and not isinstance(node.args[0], ast.BinOp):
+            e, t = sl_expr(node.args[0], sym, assigns, depth + 1)
+            if t in ("Nat", "Lit"):
+                return e, t                                       # int() of a natural number
+            raise Untranslatable("int() of something that is not a natural number")
         if fn == "int" and len(node.args) == 1 and isinstance(node.args[0], ast.BinOp) \
                 and isinstance(node.args[0].op, ast.Div):
             a, at = sl_expr(node.args[0].left, sym, assigns, depth + 1)
@@ -331,6 +362,48 @@ def straightline(repo, spec):
     return out, func.lineno, "; ".join(src)
 
 
+def chain(repo, spec):
+    """`if t1: return e1 ... raise/return` -> nested `if` of type Option <result>; returns (lean, line, source digest)."""
+    tree = ast.parse(open(os.path.join(repo, spec["file"])).read())
+    func = find_function(tree, spec["func"])
+    sym = dict(spec["inputs"])
+    want = spec["result"]
+    branches, final, src = [], None, []
+    closed = False
+    for st in func.body:
+        if isinstance(st, ast.Expr) and isinstance(st.value, ast.Constant):
+            continue                                                    # docstring
+        if closed:
+            raise Untranslatable(f"statement after the closing raise / return at line {st.lineno}")
+        if isinstance(st, ast.If) and not st.orelse and len(st.body) == 1 and isinstance(st.body[0], ast.Return) \
+                and st.body[0].value is not None:
+            ttext = ast.unparse(st.test)
+            if ttext not in sym or sym[ttext][1] != "Bool":
+                raise Untranslatable(f"condition {ttext[:60]}")
+            e, t = sl_expr(st.body[0].value, sym)
+            if t != want:
+                raise Untranslatable(f"branch `{ttext[:40]}` returns {t}, expected {want}")
+            branches.append((sym[ttext][0], e))
+            src.append(f"if {ttext}: return {ast.unparse(st.body[0].value)}")
+        elif isinstance(st, ast.Raise):
+            final, closed = "none", True
+            src.append("raise")
+        elif isinstance(st, ast.Return) and st.value is not None:
+            e, t = sl_expr(st.value, sym)
+            if t != want:
+                raise Untranslatable(f"final return has type {t}, expected {want}")
+            final, closed = f"some {e}", True
+            src.append(f"return {ast.unparse(st.value)}")
+        else:
+            raise Untranslatable(f"statement {type(st).__name__} at line {st.lineno}")
+    if final is None:
+        raise Untranslatable("the chain is not closed by a raise or a return")
+    expr = final
+    for c, e in reversed(branches):
+        expr = f"if {c} then some {e} else {expr}"
+    return expr, func.lineno, "; ".join(src)
+
+
 def translate(repo, out_path):
     """Regenerate out_path from the source tree `repo`.  Returns (records, changed)."""
     recs = []
@@ -374,6 +447,19 @@ def translate(repo, out_path):
         lines.append("")
         recs.append({"name": spec["name"], "file": spec["file"], "func": spec["func"], "line": line, "ok": ok,
                      "why": why, "python": src1[:200], "lean": expr})
+    for spec in CHAIN_SPECS:
+        binder = " ".join(f"({v} : {t})" for v, t in spec["vars"])
+        try:
+            expr, line, src = chain(repo, spec)
+            ok, why = True, ""
+        except (Untranslatable, SyntaxError, OSError, StopIteration) as ex:
+            expr, line, src, ok, why = "none", 0, "", False, str(ex)
+        lines.append(f"/-- `{spec['file']}:{spec['func']}`" + (f" line {line}, return chain: `{src[:300]}`" if ok else
+                                                                f" -- TRANSLATION FAILED: {why}") + " -/")
+        lines.append(f"def {spec['name']} {binder} : Option {spec['result']} :=\n  {expr}")
+        lines.append("")
+        recs.append({"name": spec["name"], "file": spec["file"], "func": spec["func"], "line": line, "ok": ok,
+                     "why": why, "python": src[:300], "lean": expr})
     for spec in SL_SPECS:
         binder = " ".join(f"({v} : {t})" for v, t in spec["vars"])
         try:
